@@ -24,16 +24,17 @@ type loadCfg struct {
 
 // Loaded is the repository as the engine sees it: typed syntax, SSA, contracts.
 type Loaded struct {
-	repo      string
-	pkgs      []*packages.Package
-	prog      *ssa.Program
-	contracts *ContractSet
-	cfg       loadCfg
-	fileByPos map[*token.File]*ast.File
-	allFuncs  map[*ssa.Function]bool
-	byKey     map[string][]*ssa.Function // pkgpath::Recv.Name -> functions (instantiations)
-	srcCache  map[string][]byte
-	tables    []*tableEntry
+	repo       string
+	pkgs       []*packages.Package
+	prog       *ssa.Program
+	contracts  *ContractSet
+	cfg        loadCfg
+	fileByPos  map[*token.File]*ast.File
+	allFuncs   map[*ssa.Function]bool
+	byKey      map[string][]*ssa.Function // pkgpath::Recv.Name -> functions (instantiations)
+	srcCache   map[string][]byte
+	tables     []*tableEntry
+	stackNeeds map[stackNeedKey]stackNeed
 }
 
 func Load(repo string) (*Loaded, error) {
